@@ -1,0 +1,40 @@
+//go:build verif
+
+// Contracts for package lr, read by /verif/govc (contract-based deductive verification).
+// Comments and pure specification functions only; compiled only with -tags verif.
+package lr
+
+import item "github.com/acekingke/yaccgo/Items"
+
+var _ = item.NewItem
+
+// two item sets are the same state iff their (sorted, duplicate-free) item lists agree position by position
+//@ def sameItems(a *item.ItemCloure, b *item.ItemCloure) = len(a.Items) == len(b.Items) &&
+//@     (forall i int :: 0 <= i && i < len(a.Items) ==> *a.Items[i] == *b.Items[i])
+//@ def wfLR0(lr0 *LR0) = lr0 != nil && (forall s int :: 0 <= s && s < len(lr0.LR0Closure) ==> lr0.LR0Closure[s] != nil &&
+//@     (forall i int :: 0 <= i && i < len(lr0.LR0Closure[s].Items) ==> lr0.LR0Closure[s].Items[i] != nil))
+
+// state de-duplication: an index is returned iff a state with exactly this item list exists (C09: no duplicate
+// states, no two different item sets identified)
+//@ func (*LR0).CheckIsExist
+//@ props C09 C01
+//@ results idx, found
+//@ requires wfLR0(lr0) && IC != nil && (forall i int :: 0 <= i && i < len(IC.Items) ==> IC.Items[i] != nil)
+//@ ensures [C09,C01] found ==> 0 <= idx && idx < len(lr0.LR0Closure) && sameItems(lr0.LR0Closure[idx], IC)
+//@ ensures [C09,C01] !found ==> (forall s int :: 0 <= s && s < len(lr0.LR0Closure) ==> !sameItems(lr0.LR0Closure[s], IC))
+//@ modifies nothing
+//@ loop 0: invariant forall s int :: 0 <= s && s < idx0 ==> !sameItems(lr0.LR0Closure[s], IC)
+//@ loop 1: invariant 0 <= i && i <= len(ic_in.Items) && len(ic_in.Items) == len(IC.Items) && ic_in == lr0.LR0Closure[idx0]
+//@ loop 1: invariant found == (forall k int :: 0 <= k && k < i ==> *ic_in.Items[k] == *IC.Items[k])
+//@ loop 1: decreases len(ic_in.Items) - i
+
+//@ func (*LR0).InsertItemClosure
+//@ props C09
+//@ results n
+//@ requires wfLR0(lr0) && IC != nil && (forall i int :: 0 <= i && i < len(IC.Items) ==> IC.Items[i] != nil)
+//@ may_panic "Error: Items cannot empty"
+//@ ensures [C09] n >= 0 ==> n == old(len(lr0.LR0Closure)) && len(lr0.LR0Closure) == n + 1 && lr0.LR0Closure[n] == IC && IC.Index == n &&
+//@     (forall s int :: 0 <= s && s < n ==> lr0.LR0Closure[s] == old(lr0.LR0Closure[s]))
+//@ ensures [C09] n < 0 ==> n == -1 && lr0.LR0Closure == old(lr0.LR0Closure) && needCheck
+//@ ensures [C09] !needCheck ==> n >= 0
+//@ modifies lr0.LR0Closure, IC.Index
